@@ -864,7 +864,14 @@ def generate(seed, tier):
                 inner = gen_op(r, reent_ok=False)
             if r.random() < 0.25:
                 inner = dict(op)
-            steps.append({'t': 'preempt', 'op': op, 'inner_op': inner, 'at': r.random()})
+            st = {'t': 'preempt', 'op': op, 'inner_op': inner, 'at': r.random()}
+            if r.random() < 0.35:
+                # ... or the other party advances its own in-flight calls a little (start / next / close of generator
+                # tasks, complete calls): several calls in progress, interleaved at line granularity
+                g = inner_group()
+                if g:
+                    st['inner_steps'] = g
+            steps.append(st)
         else:
             x = gen_step()
             steps.extend(x if isinstance(x, list) else [x])
@@ -950,6 +957,9 @@ def run_history(case):
                     saved_nested = ctx['nested']
                     ctx['nested'] = []
                     try:
+                        for m, ist in enumerate(st.get('inner_steps') or []):
+                            if not stop:
+                                exec_step(ist, path + [0, m], depth + 1)
                         got.append(run_op(yaml, st['inner_op'], ctx))
                     finally:
                         ctx['nested'] = saved_nested
@@ -1093,6 +1103,7 @@ def case_ops(case):
             st = stack.pop()
             for g in st.get('inner') or []:
                 stack.extend(g)
+            stack.extend(st.get('inner_steps') or [])
             if st.get('inner_op'):
                 yield st['inner_op']
             if 'op' in st:
@@ -1540,6 +1551,11 @@ def shrink(case):
                     yield dict(case, steps=steps[:i] + [dict(st, op=op2)] + steps[i + 1:])
             if st['t'] in ('interrupt', 'preempt'):
                 yield dict(case, steps=steps[:i] + [{'t': 'call', 'op': op}] + steps[i + 1:])
+            if st['t'] == 'preempt' and st.get('inner_steps'):
+                yield dict(case, steps=steps[:i] + [{k: v for k, v in st.items() if k != 'inner_steps'}] + steps[i + 1:])
+                yield dict(case, steps=steps[:i] + list(st['inner_steps']) + [{k: v for k, v in st.items() if k != 'inner_steps'}] + steps[i + 1:])
+                for cand in shr.list_candidates(st['inner_steps'], 1):
+                    yield dict(case, steps=steps[:i] + [dict(st, inner_steps=cand)] + steps[i + 1:])
             if st['t'] == 'preempt':
                 yield dict(case, steps=steps[:i] + [{'t': 'call', 'op': st['inner_op']}, {'t': 'call', 'op': op}] + steps[i + 1:])
                 for key in ('docs', 'vals'):
